@@ -810,7 +810,7 @@ func extractMarshal(m *model.Msg) (*marshalModel, error) {
 		is, ok := s.(*ast.IfStmt)
 		if ok && is.Init == nil {
 			cs := types.ExprString(is.Cond)
-			if strings.HasSuffix(cs, ".Buf != nil") {
+			if strings.HasSuffix(cs, ".Buf != nil") || strings.HasSuffix(cs, ".Buf == nil") {
 				break
 			}
 			c, err := e.cond(is.Cond)
@@ -854,6 +854,44 @@ func extractMarshal(m *model.Msg) (*marshalModel, error) {
 		return mm, nil
 	}
 	ep := list[pos].(*ast.IfStmt)
+	// equivalent epilogue with early return: `if input.Buf == nil { return {Buf: dAtA}, nil }; return {Buf: append(input.Buf, dAtA...)}, nil`
+	// (or the mirrored test)
+	{
+		bufOf := func(st ast.Stmt) ast.Expr {
+			rs, ok := st.(*ast.ReturnStmt)
+			if !ok || len(rs.Results) != 2 || types.ExprString(rs.Results[1]) != "nil" {
+				return nil
+			}
+			cl, ok := rs.Results[0].(*ast.CompositeLit)
+			if !ok {
+				return nil
+			}
+			for _, el := range cl.Elts {
+				if kv, ok := el.(*ast.KeyValueExpr); ok && types.ExprString(kv.Key) == "Buf" {
+					return kv.Value
+				}
+			}
+			return nil
+		}
+		isFresh := func(x ast.Expr) bool { return x != nil && w.isIdent(x, w.buf) }
+		isAppend := func(x ast.Expr) bool {
+			call, ok := x.(*ast.CallExpr)
+			if !ok || len(call.Args) != 2 || !call.Ellipsis.IsValid() {
+				return false
+			}
+			b, ok := core.CalleeObj(info, call).(*types.Builtin)
+			return ok && b.Name() == "append" && strings.HasSuffix(types.ExprString(call.Args[0]), ".Buf") && w.isIdent(call.Args[1], w.buf)
+		}
+		if ep.Else == nil && len(ep.Body.List) == 1 && pos == len(list)-2 {
+			inner, outer := bufOf(ep.Body.List[0]), bufOf(list[pos+1])
+			isNil := strings.HasSuffix(types.ExprString(ep.Cond), ".Buf == nil")
+			if inner != nil && outer != nil {
+				if (isNil && isFresh(inner) && isAppend(outer)) || (!isNil && isAppend(inner) && isFresh(outer)) {
+					return mm, nil
+				}
+			}
+		}
+	}
 	okThen, okElse := false, false
 	if len(ep.Body.List) == 1 {
 		if as, ok := ep.Body.List[0].(*ast.AssignStmt); ok && strings.HasSuffix(types.ExprString(as.Lhs[0]), ".Buf") {
